@@ -136,6 +136,59 @@ pub fn two_runs_islands() -> Vec<Vec<u8>> {
     out
 }
 
+/// One record with more than 2^32 unambiguous bases in a row (a 1021-periodic pseudo-random text), streamed through the
+/// k-mer iterator without collecting: the number of pairs, the first and the last 64 pairs (against the model on the
+/// corresponding pieces of text), and for every pair that the second code is the reverse complement of the first
+/// (checked on the fly on a stride, completely on the ends). Returns None if all is as it must be.
+pub fn four_gibibase_run(k: usize) -> Option<(String, String)> {
+    let n: usize = (1usize << 32) + 1000;
+    let unit: Vec<u8> = long_input(1021, 5).iter().map(|&b| if b"ACGT".contains(&b) { b } else { b'T' }).collect();
+    let mut s: Vec<u8> = Vec::with_capacity(n);
+    while s.len() < n {
+        let take = unit.len().min(n - s.len());
+        s.extend_from_slice(&unit[..take]);
+    }
+    let r = guard(|| {
+        let mut count: u64 = 0;
+        let mut first: Vec<(u64, u64)> = Vec::new();
+        let mut last: std::collections::VecDeque<(u64, u64)> = std::collections::VecDeque::new();
+        let mut bad_pair: Option<(u64, (u64, u64))> = None;
+        for it in KmerGenerator::new(&s, k) {
+            if first.len() < 64 {
+                first.push(it);
+            }
+            if count % 1_000_003 == 0 && bad_pair.is_none() && it.1 as u128 != model::rc_code(it.0 as u128, k) {
+                bad_pair = Some((count, it));
+            }
+            last.push_back(it);
+            if last.len() > 64 {
+                last.pop_front();
+            }
+            count += 1;
+        }
+        (count, first, last.into_iter().collect::<Vec<_>>(), bad_pair)
+    });
+    match r {
+        Err(p) => Some(("panic".into(), format!("KmerGenerator over one record of 2^32 + 1000 unambiguous bases, k={k}: panicked: {p}"))),
+        Ok((count, first, last, bad_pair)) => {
+            let want = (n - k + 1) as u64;
+            let head: Vec<(u64, u64)> = model::windows(&s[..63 + k], k).iter().map(|w| (w.1 as u64, w.2 as u64)).collect();
+            let tail: Vec<(u64, u64)> = model::windows(&s[n - 63 - k..], k).iter().map(|w| (w.1 as u64, w.2 as u64)).collect();
+            if count != want {
+                Some(("item-count".into(), format!("KmerGenerator over one record of 2^32 + 1000 unambiguous bases, k={k}: {count} pairs, expected {want}")))
+            } else if let Some((i, p)) = bad_pair {
+                Some(("pair-not-revcomp".into(), format!("one record of 2^32 + 1000 unambiguous bases, k={k}: pair {i} = {:?} is not (code, reverse complement)", p)))
+            } else if first != head {
+                Some(("forward-code".into(), format!("one record of 2^32 + 1000 unambiguous bases, k={k}: the first 64 pairs are {:?}, expected {:?}", first, head)))
+            } else if last != tail {
+                Some(("forward-code".into(), format!("one record of 2^32 + 1000 unambiguous bases, k={k}: the last 64 pairs are {:?}, expected {:?}", last, tail)))
+            } else {
+                None
+            }
+        }
+    }
+}
+
 fn in_small_scope(seq: &[u8], maxlen: usize) -> bool {
     seq.len() <= maxlen && seq.iter().all(|b| S5.contains(b))
 }
@@ -521,6 +574,15 @@ pub fn c01(ctx: &mut Ctx) {
             }
         }
     }
+    // a clean run longer than 32 bits can count, in ONE record (the last shard takes it: about 4.3 GB of memory)
+    if ctx.shard.idx + 1 == ctx.shard.n {
+        ctx.rep.evaluations += 1;
+        ctx.rep.nontrivial += 1;
+        ctx.rep.count("cases.run_beyond_2_pow_32", 1);
+        if let Some((key, desc)) = four_gibibase_run(21) {
+            ctx.rep.violation(Violation { key, size: 1 << 40, desc, argv: vec!["case".into(), "C01giant".into(), "21".into()] });
+        }
+    }
     ctx.rep.count("cases.long_inputs", n_long);
     if ctx.shard.is_first() {
         ctx.rep.sample("byte-class: \"AC\" + 0x7f + \"GT\", k=2".to_string());
@@ -835,6 +897,15 @@ pub fn c02(ctx: &mut Ctx) {
         }
     }
     ctx.rep.count("cases.stream_symmetry", ns);
+    // every pair of a stream is (code, reverse complement) also beyond 2^32 bases of one clean run (last shard; 4.3 GB)
+    if ctx.shard.idx + 1 == ctx.shard.n {
+        ctx.rep.evaluations += 1;
+        ctx.rep.nontrivial += 1;
+        ctx.rep.count("cases.run_beyond_2_pow_32", 1);
+        if let Some((key, desc)) = four_gibibase_run(21) {
+            c02_violation(ctx, &key, 1 << 40, desc, vec!["case".into(), "C02giant".into(), "21".into()]);
+        }
+    }
     if ctx.shard.is_first() {
         ctx.rep.sample(format!("code: rev_comp/numeric_to_kmer on every x < 4^k for k 1..={}, e.g. x=27 k=3 (text CGT, rc ACG=6)", kmax));
         ctx.rep.sample("code family: k=31, digits 13·(2 repeated)·30, 0, 4^31-1; palindromes from half-words".to_string());
@@ -868,7 +939,7 @@ pub fn c09_case(ctx: &mut Ctx, family: &str, seq: &[u8], w: usize, m: usize) -> 
     ctx.journal
         .note(|| format!("C09 {} seq={} w={} m={}", family, hex(seq), w, m));
     ctx.rep.evaluations += 1;
-    let exp = model::runs(seq, w, m);
+    let exp = if w - m.min(w) >= 2048 { model::runs_wide(seq, w, m) } else { model::runs(seq, w, m) };
     let got = guard(|| MinimiserGenerator::new(seq, w, m).collect::<Vec<(u64, usize, usize)>>());
     let (key, what) = match &got {
         Err(p) => ("panic".to_string(), format!("panicked: {}", p)),
@@ -1215,6 +1286,43 @@ pub fn minimiser_spaces(ctx: &mut Ctx, which: u32) {
             }
         }
     }
+    // the window itself at the width boundaries: 2^8, 2^16 (one less, one more), 100 000 and 2^17 m-mer slots per window
+    if which == 9 {
+        // the wide-window model against the defining one, on every short input (machinery check, not a verdict)
+        if ctx.shard.is_first() {
+            for_each_string(S5, 0, 7, |t| {
+                for (w, m) in [(1usize, 1usize), (2, 1), (3, 2), (4, 2), (5, 3), (5, 1), (7, 7)] {
+                    if model::runs(t, w, m) != model::runs_wide(t, w, m) {
+                        eprintln!("MACHINERY: the two minimiser models disagree on {:?} w={} m={}", show(t), w, m);
+                        std::process::exit(2);
+                    }
+                }
+            });
+        }
+        let mut clean = long_input(330_000, 17);
+        clean.iter_mut().for_each(|b| {
+            if !b"ACGT".contains(b) {
+                *b = b'G'
+            }
+        });
+        for slots in [255usize, 256, 257, 65_535, 65_536, 65_537, 100_000, 131_072] {
+            for m in [11usize, 24, 25] {
+                let w = slots + m - 1;
+                if w <= wmax && sh.mine() {
+                    let len = if slots > 1000 { w + 70_000 } else { w + 3000 };
+                    run(ctx, "wide-window", &clean[..len], w, m);
+                    n_long += 1;
+                    ctx.rep.nontrivial += 1;
+                }
+            }
+        }
+        // the same with a gap of ambiguous bytes inside
+        let mut gapped = clean[..300_000].to_vec();
+        gapped[150_000] = b'N';
+        if sh.mine() {
+            run(ctx, "wide-window", &gapped, 65_546, 11);
+        }
+    }
     // one minimiser over more than 2^22 (thorough: 2^24) consecutive windows: the widths a run length or a per-run
     // list could be narrowed to lie far beyond what the other inputs reach
     {
@@ -1301,6 +1409,12 @@ pub fn replay(ctx: &mut Ctx, args: &[String]) {
     match args[0].as_str() {
         "C01" => {
             c01_case(ctx, "replay", &crate::out::unhex(&args[1]), args[2].parse().unwrap());
+        }
+        "C01giant" | "C02giant" => {
+            ctx.rep.evaluations += 1;
+            if let Some((key, desc)) = four_gibibase_run(args[1].parse().unwrap()) {
+                ctx.rep.violation(Violation { key, size: 1 << 40, desc, argv: vec!["case".into(), args[0].clone(), args[1].clone()] });
+            }
         }
         "C02code" => c02_code(ctx, args[1].parse().unwrap(), args[2].parse().unwrap()),
         "C02stream" => c02_stream(ctx, &crate::out::unhex(&args[1]), args[2].parse().unwrap()),
